@@ -409,6 +409,12 @@ func (c *lexerCompiler) resolveClasses() {
 			continue
 		}
 		class := c.classRules[classRule]
+		if r.Precedence != class.Precedence {
+			// The rule competes with other rules under its own priority: specialising it from the
+			// class rule would let the class rule's priority decide instead.
+			out = append(out, r)
+			continue
+		}
 
 		if !container.SliceEqual(class.StartConditions, r.StartConditions) {
 			c.Errorf(r.Origin, "%v must be applicable in the same set of start conditions as %v", r.Pattern.Name, class.Pattern.Name)
